@@ -1,5 +1,137 @@
+(* Props/C18.v — property C18: prototype selection is batching-independent and maximises its stated objective.
+   Only statements, each closed by [exact]; proofs live in C18/Proofs.v.
+
+   NOT PROVED (kept here as the full statements; both are TESTED on every generated case of the correspondence
+   check by [check_spec], evaluated with vm_compute, which is a test and not a theorem):
+
+   colmeans_triangular :
+     forall K n bs, symmetric K n -> length K = n -> 1 <= bs -> 1 <= n ->
+       col_means_table K bs n = table_of bs (dense_col_means K n) /\
+       diag_table K bs n = table_of bs (dense_diag K n).
+   greedy_batch_invariant :
+     forall obj updw K n bs np, symmetric K n -> length K = n -> 1 <= bs -> np <= n ->
+       map (flat_idx bs) (g_sel (run_greedy K bs n np obj updw (col_means_table K bs n) (diag_table K bs n)))
+       = dense_select obj K n np.
+   What IS proved of greedy_batch_invariant is its tie-breaking core, for every cut into batches
+   (C18_batched_argmax_is_dense, C18_batching_invariant_argmax, C18_argmax_reads_first_max): a per-batch first
+   arg-max replaced only by a strictly better later batch is the first arg-max of the whole candidate list.
+   Missing: the invariants linking the padded tables (mask_of_selected, samples_selection_kernel) to the dense
+   data of the unselected cases. *)
 From Xpl Require Import C18.Spec C18.Proofs.
 Open Scope Qc_scope.
-Theorem C18_tmp : forall w, qsum w <> 0 -> qsum (normalise w) = 1.
-Proof. exact normalise_sum. Qed.
-Print Assumptions C18_tmp.
+
+(* 1. weights: non-negative and summing to one, for the three methods, every kernel matrix, batch size and number
+   of prototypes, as soon as one un-normalised weight is positive (otherwise the code divides by zero) *)
+Theorem C18_weights_normalised :
+  forall m eps K bs np,
+    let n := length K in
+    let s := run_greedy K bs n np (method_obj eps m) (method_updw eps m) (col_means_table K bs n) (diag_table K bs n) in
+    (exists x, In x (g_w s) /\ 0 < x) -> weights_ok (snd (find_prototypes m eps K bs np)).
+Proof. exact weights_normalised. Qed.
+Print Assumptions C18_weights_normalised.
+
+(* 2. the selected cases are distinct: distinct (batch, position) pairs, positions inside the batch, hence
+   distinct dataset positions batch * bs + position — every method, kernel matrix, batch size, nb_prototypes *)
+Theorem C18_selected_distinct :
+  forall m eps K bs np,
+    let sel := fst (find_prototypes m eps K bs np) in
+    NoDup sel /\ (forall bp, In bp sel -> (snd bp < bs)%nat) /\ NoDup (map (flat_idx bs) sel).
+Proof. exact selected_distinct. Qed.
+Print Assumptions C18_selected_distinct.
+
+(* 3. batching independence of the arg-max: the loop "first arg-max inside each batch, kept unless a later batch
+   is STRICTLY better" returns the first maximiser of the concatenated candidates, for every cut into batches *)
+Theorem C18_batched_argmax_is_dense :
+  forall (A : Type) (bl : list (list (A * Qc))), fold_left merge_best bl None = first_max (concat bl).
+Proof. exact @batched_first_max. Qed.
+Print Assumptions C18_batched_argmax_is_dense.
+
+Theorem C18_batching_invariant_argmax :
+  forall (A : Type) (bl bl' : list (list (A * Qc))), concat bl = concat bl' ->
+    fold_left merge_best bl None = fold_left merge_best bl' None.
+Proof. exact @batched_first_max_invariant. Qed.
+Print Assumptions C18_batching_invariant_argmax.
+
+(* the model's tf.argmax reads that first maximiser *)
+Theorem C18_argmax_reads_first_max :
+  forall (A : Type) (val : A -> Qc) (l : list A),
+    option_map (fun a => (a, val a)) (nth_error l (argmax (map val l))) = first_max (map (fun a => (a, val a)) l).
+Proof. exact @argmax_first_max. Qed.
+Print Assumptions C18_argmax_reads_first_max.
+
+(* ... and a first maximiser is a maximiser, strictly better than every earlier candidate *)
+Theorem C18_first_max_is_maximiser :
+  forall (A : Type) (l : list (A * Qc)) x, first_max l = Some x -> is_first_max l x.
+Proof. exact @first_max_spec. Qed.
+Print Assumptions C18_first_max_is_maximiser.
+
+(* 4. the dense greedy step selects a first maximiser of the objective among the cases not yet selected *)
+Theorem C18_dense_step_maximises :
+  forall obj K n S c, dense_step obj K n S = S ++ [c] -> dense_candidates n S <> [] ->
+    is_first_max (map (fun c => (c, fst (dense_value obj K n S c))) (dense_candidates n S))
+                 (c, fst (dense_value obj K n S c)).
+Proof. exact dense_step_spec. Qed.
+Print Assumptions C18_dense_step_maximises.
+
+Theorem C18_dense_candidates :
+  forall n S c, In c (dense_candidates n S) <-> (c < n)%nat /\ ~ In c S.
+Proof. exact dense_candidates_spec. Qed.
+Print Assumptions C18_dense_candidates.
+
+(* 5. the objective the code computes from (diag, column mean, kernel row to the selection, K_SS) is the documented
+   one written on the full kernel matrix *)
+Theorem C18_mmd_objective_spec :
+  forall K n S c, (n <> 0)%nat -> symmetric K n -> (c < n)%nat -> (forall s, In s S -> (s < n)%nat) ->
+    fst (dense_value mmd_obj K n S c) = mmd_documented K n S c.
+Proof. exact dense_value_mmd. Qed.
+Print Assumptions C18_mmd_objective_spec.
+
+Theorem C18_greedy_objective_spec :
+  forall eps K n S c, symmetric K n -> (c < n)%nat -> (forall s, In s S -> (s < n)%nat) ->
+    fst (dense_value (greedy_obj eps) K n S c) = greedy_documented eps K n S c.
+Proof. exact dense_value_greedy. Qed.
+Print Assumptions C18_greedy_objective_spec.
+
+(* 6. ProtoDash starts from the case with the largest mean kernel value *)
+Theorem C18_protodash_first :
+  forall K n c, (n <> 0)%nat -> dense_select dash_obj K n 1 = [c] ->
+    is_first_max (map (fun c => (c, colmean K n c)) (seq 0 n)) (c, colmean K n c).
+Proof. exact protodash_first. Qed.
+Print Assumptions C18_protodash_first.
+
+(* 7. local explanations: flat = batch * bs + position addresses the same element as (batch, position) in the
+   batched list, and the label returned with a neighbour is the dataset label at the returned dataset index *)
+Theorem C18_local_index_translation :
+  forall (A : Type) (l : list A) bs b p d, (1 <= bs)%nat -> (p < bs)%nat ->
+    nth p (nth b (chunks bs l) []) d = nth (b * bs + p) l d.
+Proof. exact @nth_chunks. Qed.
+Print Assumptions C18_local_index_translation.
+
+Theorem C18_prototypes_labels_indices :
+  forall bs k protos labels drow d idx lab, (1 <= bs)%nat ->
+    (forall bp, In bp protos -> (snd bp < bs)%nat) ->
+    In (d, Some idx, Some lab) (local_row bs k protos (proto_labels bs labels protos) drow) ->
+    In idx protos /\ lab = nth (flat_idx bs idx) labels 0%nat.
+Proof. exact local_row_labels_indices. Qed.
+Print Assumptions C18_prototypes_labels_indices.
+
+(* non-vacuity: a symmetric 4 x 4 kernel matrix, batch size 3 (remainder batch), 3 prototypes: the three methods
+   run, MMDCritic selects the dataset positions 1, 2, 0 with weights 1/3 (also with batch size 2), and the batched model agrees with the
+   dense specification on the tables and on the selection *)
+Definition K4 : list (list Qc) :=
+  [[q 1 1; q 1 2; q 1 8; q 1 4]; [q 1 2; q 1 1; q 1 4; q 1 2]; [q 1 8; q 1 4; q 1 1; q 1 8]; [q 1 4; q 1 2; q 1 8; q 1 1]].
+Example C18_nonvacuous :
+  symmetric K4 4 /\
+  find_prototypes MMDCritic (q 1 1000000) K4 3 3 = ([(0, 1); (0, 2); (0, 0)]%nat, [q 1 3; q 1 3; q 1 3]) /\
+  find_prototypes MMDCritic (q 1 1000000) K4 2 3 = ([(0, 1); (1, 0); (0, 0)]%nat, [q 1 3; q 1 3; q 1 3]) /\
+  check_spec MMDCritic (q 1 1000000) K4 3 3 = true /\ check_spec ProtoDash (q 1 1000000) K4 3 3 = true /\
+  check_spec ProtoGreedy (q 1 1000000) K4 3 3 = true /\
+  weights_ok (snd (find_prototypes ProtoGreedy (q 1 1000000) K4 3 3)).
+Proof.
+  split.
+  { intros r c Hr Hc.
+    do 4 (destruct r as [|r]; [do 4 (destruct c as [|c]; [reflexivity|]); exfalso; lia|]). exfalso; lia. }
+  split; [vm_compute; reflexivity|]. split; [vm_compute; reflexivity|].
+  split; [vm_compute; reflexivity|]. split; [vm_compute; reflexivity|]. split; [vm_compute; reflexivity|].
+  apply C18_weights_normalised. vm_compute. eexists. split; [left; reflexivity|]. reflexivity.
+Qed.
